@@ -50,19 +50,190 @@ package keeper
 
 // ---- frames of the liquidity operations other modules call (checked against the call-graph inference)
 //@ func (Keeper).JoinPoolNoSwap
+//@ forall p Int
+//@ decabstract
 //@ modifies module:amm, module:accountedpool, module:assetprofile, module:commitment, module:estaking, module:masterchef, module:perpetual, module:sdk-distribution, module:tier, bank
-//@ frame-only
+//@ requires sender != modAddr("commitment")
+//@ ensures C02/total-shares-track-supply: err == nil ==> shareGap(ctx, p) == old(shareGap(ctx, p))
+//@ ensures C02/minted-shares-go-into-custody: err == nil ==> sharesOutsideCustody(ctx, p) == old(sharesOutsideCustody(ctx, p))
+//@ ensures C08/frame: true
 
 //@ func (Keeper).ExitPool
+//@ forall p Int
+//@ decabstract
 //@ modifies module:amm, module:accountedpool, module:commitment, module:estaking, module:masterchef, module:perpetual, module:sdk-distribution, module:tier, bank
-//@ frame-only
+//@ requires sender != modAddr("commitment")
+//@ ensures C02/total-shares-track-supply: err == nil ==> shareGap(ctx, p) == old(shareGap(ctx, p))
+//@ ensures C02/burnt-shares-come-out-of-custody: err == nil ==> sharesOutsideCustody(ctx, p) == old(sharesOutsideCustody(ctx, p))
+//@ ensures C08/frame: true
 
 // ---- C08 (leveragelp AddPool): a stored amm pool sits under its own id --------------------------------
 //@ rowinv C08/ammPoolKey table amm:types.KeyPrefix/types.PoolKey row types.Pool : row.PoolId == key1
+// ... and keeps the two addresses derived from that id.
+//@ define poolWF(pool) := unbech32(pool.Address) == types.NewPoolAddress(pool.PoolId) && unbech32(pool.RebalanceTreasury) == types.NewPoolRebalanceTreasury(pool.PoolId)
+//@ rowinv C02/ammPoolAddresses table amm:types.KeyPrefix/types.PoolKey row types.Pool : poolWF(row)
 //@ func (Keeper).SetPool
-//@ ensures C08/stored-under-its-id: true
+//@ requires poolWF(pool)
+//@ ensures C08,C02/stored-under-its-id: true
 
 // Exit estimation (query path used for position health): reads pools, prices and snapshots only.
 //@ func (Keeper).ExitPoolEst
 //@ modifies nothing
 //@ frame-only
+
+// ---- C02: pool total shares = share-token supply; every share sits in commitment custody ---------------
+//@ define ammPoolHas(ctx, p) := has(ctx, "amm:types.KeyPrefix/types.PoolKey", "Pool/value/", p)
+//@ define ammPoolRow(ctx, p) := row(ctx, "amm:types.KeyPrefix/types.PoolKey", "types.Pool", "Pool/value/", p)
+//@ define shareGap(ctx, p) := ite(ammPoolHas(ctx, p), ammPoolRow(ctx, p).TotalShares.Amount, 0) - supply(ctx, types.GetPoolShareDenom(p))
+//@ define sharesOutsideCustody(ctx, p) := supply(ctx, types.GetPoolShareDenom(p)) - bal(ctx, modAddr("commitment"), types.GetPoolShareDenom(p))
+
+// The pool handed in has already been bumped in memory by exactly the shares to mint.
+//@ func (Keeper).ApplyJoinPoolStateChange
+//@ forall p Int
+//@ instances types.GetPoolShareDenom(p)
+//@ modifies bank, module:amm, module:accountedpool, module:assetprofile, module:commitment, module:estaking, module:masterchef, module:perpetual, module:sdk-distribution, module:tier
+//@ requires joiner != modAddr("commitment") && poolWF(pool)
+//@ requires ammPoolHas(ctx, pool.PoolId) && pool.TotalShares.Amount == ammPoolRow(ctx, pool.PoolId).TotalShares.Amount + numShares
+//@ ensures C02/total-shares-track-supply: err == nil ==> shareGap(ctx, p) == old(shareGap(ctx, p))
+//@ ensures C02/minted-shares-go-into-custody: err == nil ==> sharesOutsideCustody(ctx, p) == old(sharesOutsideCustody(ctx, p))
+
+//@ func (Keeper).GetAccountedPoolSnapshotOrSet
+//@ modifies table:amm~:types.KeyPrefix/types.PoolKey
+//@ frame-only
+
+//@ func (Keeper).GetPoolSnapshotOrSet
+//@ modifies table:amm~:types.KeyPrefix/types.PoolKey
+//@ frame-only
+
+
+//@ func (Keeper).ApplyExitPoolStateChange
+//@ forall p Int
+//@ instances types.GetPoolShareDenom(p)
+//@ modifies bank, module:amm, module:accountedpool, module:commitment, module:estaking, module:masterchef, module:perpetual, module:sdk-distribution, module:tier
+//@ requires exiter != modAddr("commitment") && poolWF(pool) && numShares >= 0
+//@ requires ammPoolHas(ctx, pool.PoolId) && pool.TotalShares.Amount == ammPoolRow(ctx, pool.PoolId).TotalShares.Amount - numShares
+//@ ensures C02/total-shares-track-supply: err == nil ==> shareGap(ctx, p) == old(shareGap(ctx, p))
+//@ ensures C02/burnt-shares-come-out-of-custody: err == nil ==> sharesOutsideCustody(ctx, p) == old(sharesOutsideCustody(ctx, p))
+
+// The id for a new pool is one above the highest stored id (reverse iteration over big-endian
+// keys): nothing is stored there. Trusted: store iterator order.
+//@ func (Keeper).GetNextPoolId
+//@ modifies nothing
+//@ trusted
+//@ ensures C02/next-id-is-free: !ammPoolHas(ctx, result)
+
+//@ func (Keeper).InitializePool
+//@ forall p Int
+//@ instances types.GetPoolShareDenom(p)
+//@ decabstract
+//@ requires sender != modAddr("commitment") && poolWF(pool) && !ammPoolHas(ctx, pool.PoolId)
+//@ ensures C02/total-shares-track-supply: err == nil ==> shareGap(ctx, p) == old(shareGap(ctx, p))
+//@ ensures C02/minted-shares-go-into-custody: err == nil ==> sharesOutsideCustody(ctx, p) == old(sharesOutsideCustody(ctx, p))
+
+//@ func (Keeper).CreatePool
+//@ forall p Int
+//@ instances types.GetPoolShareDenom(p)
+//@ decabstract
+//@ assumes unbech32(msg.Sender) != modAddr("commitment")
+//@ ensures C02/total-shares-track-supply: err == nil ==> shareGap(ctx, p) == old(shareGap(ctx, p))
+//@ ensures C02/minted-shares-go-into-custody: err == nil ==> sharesOutsideCustody(ctx, p) == old(sharesOutsideCustody(ctx, p))
+
+// Reserve updates of swaps and of perpetual transfers pass the pool object they hold back to the
+// store: it must carry the stored share total.
+//@ func (Keeper).AddToPoolBalanceAndUpdateLiquidity
+//@ forall p Int
+//@ requires ammPoolHas(ctx, pool.PoolId) && pool.TotalShares.Amount == ammPoolRow(ctx, pool.PoolId).TotalShares.Amount && poolWF(pool)
+//@ ensures C02/total-shares-move-by-the-stated-shares: err == nil ==> shareGap(ctx, p) == old(shareGap(ctx, p)) + ite(p == pool.PoolId, addShares, 0)
+//@ ensures C02/pool-object-still-current: err == nil ==> pool.TotalShares.Amount == ammPoolRow(ctx, pool.PoolId).TotalShares.Amount && ammPoolHas(ctx, pool.PoolId) && poolWF(pool)
+
+//@ func (Keeper).RemoveFromPoolBalanceAndUpdateLiquidity
+//@ forall p Int
+//@ requires ammPoolHas(ctx, pool.PoolId) && pool.TotalShares.Amount == ammPoolRow(ctx, pool.PoolId).TotalShares.Amount && poolWF(pool)
+//@ ensures C02/total-shares-move-by-the-stated-shares: err == nil ==> shareGap(ctx, p) == old(shareGap(ctx, p)) - ite(p == pool.PoolId, removeShares, 0)
+//@ ensures C02/pool-object-still-current: err == nil ==> pool.TotalShares.Amount == ammPoolRow(ctx, pool.PoolId).TotalShares.Amount && ammPoolHas(ctx, pool.PoolId) && poolWF(pool)
+
+//@ func (Keeper).RemovePool
+//@ inline
+//@ ensures C02/removes-the-pool-row: !ammPoolHas(ctx, poolId)
+
+// Transaction signers are user accounts, never the commitment module account (T6).
+//@ func (msgServer).JoinPool
+//@ entry
+//@ forall p Int
+//@ decabstract
+//@ assumes unbech32(msg.Sender) != modAddr("commitment")
+//@ ensures C02/total-shares-track-supply: err == nil ==> shareGap(goCtx, p) == old(shareGap(goCtx, p))
+//@ ensures C02/shares-stay-in-custody: err == nil ==> sharesOutsideCustody(goCtx, p) == old(sharesOutsideCustody(goCtx, p))
+
+//@ func (msgServer).ExitPool
+//@ entry
+//@ forall p Int
+//@ decabstract
+//@ assumes unbech32(msg.Sender) != modAddr("commitment")
+//@ ensures C02/total-shares-track-supply: err == nil ==> shareGap(goCtx, p) == old(shareGap(goCtx, p))
+//@ ensures C02/shares-stay-in-custody: err == nil ==> sharesOutsideCustody(goCtx, p) == old(sharesOutsideCustody(goCtx, p))
+
+//@ func (msgServer).CreatePool
+//@ entry
+//@ forall p Int
+//@ instances types.GetPoolShareDenom(p)
+//@ decabstract
+//@ assumes unbech32(msg.Sender) != modAddr("commitment")
+//@ ensures C02/total-shares-track-supply: err == nil ==> shareGap(goCtx, p) == old(shareGap(goCtx, p))
+//@ ensures C02/shares-stay-in-custody: err == nil ==> sharesOutsideCustody(goCtx, p) == old(sharesOutsideCustody(goCtx, p))
+
+// Swaps: the pool object comes from the routing functions, which load it in the same transaction.
+//@ func (Keeper).UpdatePoolForSwap
+//@ forall p Int
+//@ decabstract
+//@ modifies bank, module:amm, module:accountedpool, module:masterchef, module:perpetual, module:tier, module:sdk-distribution
+//@ callers-assumed the routing functions (and the fee conversion) hand in the pool as they have just read it from the store
+//@ requires ammPoolHas(ctx, pool.PoolId) && pool.TotalShares.Amount == ammPoolRow(ctx, pool.PoolId).TotalShares.Amount && poolWF(pool)
+//@ ensures C02/total-shares-track-supply: err == nil ==> shareGap(ctx, p) == old(shareGap(ctx, p))
+//@ ensures C02/stored-share-total-unchanged: err == nil ==> ammPoolHas(ctx, pool.PoolId) && ammPoolRow(ctx, pool.PoolId).TotalShares.Amount == old(ammPoolRow(ctx, pool.PoolId).TotalShares.Amount)
+
+//@ func (Keeper).UpdatePoolParams
+//@ forall p Int
+//@ ensures C02/total-shares-track-supply: err == nil ==> shareGap(ctx, p) == old(shareGap(ctx, p))
+
+//@ func (msgServer).UpdatePoolParams
+//@ entry
+//@ forall p Int
+//@ ensures C02/total-shares-track-supply: err == nil ==> shareGap(goCtx, p) == old(shareGap(goCtx, p))
+
+//@ func (msgServer).FeedMultipleExternalLiquidity
+//@ entry
+//@ forall p Int
+//@ bound Liquidity 2
+//@ decabstract
+//@ ensures C02/total-shares-track-supply: err == nil ==> shareGap(goCtx, p) == old(shareGap(goCtx, p))
+
+// Fee conversion: swaps the collected fee in the same pool on a cache context (kept only when it
+// succeeds); share totals are not involved.
+//@ func (Keeper).OnCollectFee
+//@ forall p Int
+//@ decabstract
+//@ modifies bank, module:amm, module:accountedpool, module:masterchef, module:perpetual, module:tier, module:sdk-distribution
+//@ requires ammPoolHas(ctx, pool.PoolId) && pool.TotalShares.Amount == ammPoolRow(ctx, pool.PoolId).TotalShares.Amount && poolWF(pool)
+//@ ensures C02/total-shares-track-supply: shareGap(ctx, p) == old(shareGap(ctx, p))
+//@ ensures C02/pool-object-still-current: pool.TotalShares.Amount == ammPoolRow(ctx, pool.PoolId).TotalShares.Amount && ammPoolHas(ctx, pool.PoolId)
+
+//@ func (Keeper).SwapFeesToRevenueToken
+//@ forall p Int
+//@ decabstract
+//@ modifies bank, module:amm, module:accountedpool, module:masterchef, module:perpetual, module:tier, module:sdk-distribution
+//@ ensures C02/stored-share-total-unchanged: err == nil ==> ammPoolHas(ctx, pool.PoolId) && ammPoolRow(ctx, pool.PoolId).TotalShares.Amount == old(ammPoolRow(ctx, pool.PoolId).TotalShares.Amount)
+//@ requires ammPoolHas(ctx, pool.PoolId) && pool.TotalShares.Amount == ammPoolRow(ctx, pool.PoolId).TotalShares.Amount && poolWF(pool)
+//@ ensures C02/total-shares-track-supply: err == nil ==> shareGap(ctx, p) == old(shareGap(ctx, p))
+
+//@ func (Keeper).GetExternalLiquidityRatio
+//@ modifies nothing
+//@ frame-only
+
+//@ func (Keeper).TrackWeightBreakingSlippage
+//@ modifies table:amm:str/types.WeightAndSlippageFeeKey
+//@ frame-only
+
+// Rewrites a pool row in the pre-v7 layout; used by the v7 store migration only.
+//@ func (Keeper).SetLegacyPool
+//@ migration-only
